@@ -74,6 +74,7 @@ structure LangInfo where
   gsyms : Array (Bool × Nat × Char × String) := #[]          -- is_rule, var, visibility, name
   gprods : Array (Nat × List Derive.Step) := #[]             -- (var, production)
   groots : List Nat := []
+  reds : Array (Nat × Nat × List (Nat × Nat)) := #[]        -- reduce actions: symbol, child count, own fields (child index, field id)
   ginl : List Nat := []
   gextra : List Nat := []
   gskip : String := ""
@@ -165,10 +166,38 @@ def evalModelClosed (li : LangInfo) : String :=
         | some ty => if nt.any (fun e => e.ty == ty && e.extra) then none else some name
         | none => none
       | none => none)
+    -- correspondence of the flattened + inlined productions with the REAL ones: for every named rule the set of
+    -- (child count, own field by child index) of its model productions = that of the real reduce actions
+    let insertSorted (x : Nat × String) (l : List (Nat × String)) : List (Nat × String) :=
+      let (a, b) := l.span (fun y => y.1 < x.1 || (y.1 == x.1 && y.2 < x.2)); a ++ x :: b
+    let sortF (l : List (Nat × String)) : List (Nat × String) := l.foldr insertSorted []
+    let fieldName (fid : Nat) : String := match li.flds[fid - 1]? with | some (bs, _) => showName bs | none => s!"?{fid}"
+    let shapeBad := (List.range nvars).findSome? (fun v => match varSyms[v]? with
+      | some (_, _, vis, name) =>
+        if vis != 'n' || name.contains '@' || li.ginl.contains v then none else
+        -- non-terminals are numbered in rule order after the tokens; a rule renamed by a default alias is skipped
+        let ids := [li.L.tokenCount + v].filter (fun i => i < li.L.symbolCount && (match li.syms[i]? with
+          | some (si, _) => si.named && si.visible && showName si.name == name | none => false))
+        let real := (li.reds.toList.filter (fun (sy, _, _) => ids.contains sy)).map (fun (_, cc, fs) => (cc, sortF (fs.map (fun (i, fid) => (i, fieldName fid)))))
+        let model := (G.prodsOf v).map (fun p => (p.length, sortF (p.zipIdx.filterMap (fun (st, i) => st.field.map (fun f => (i, f))))))
+        if ids.isEmpty then none else
+        match real.find? (fun r => !model.contains r) with
+        | some r => some s!"{name}/real-production-not-in-model:{r.1}:{r.2.map (fun (i, f) => s!"{i}.{f}")}"
+        | none => match model.find? (fun m => !real.contains m) with
+          | some m => some s!"{name}/model-production-not-real:{m.1}:{m.2.map (fun (i, f) => s!"{i}.{f}")}"
+          | none => none
+      | none => none)
+    let shapeVars := ((List.range nvars).filter (fun v => match varSyms[v]? with
+      | some (_, _, vis, name) => vis == 'n' && !name.contains '@' && !li.ginl.contains v &&
+          (match li.syms[li.L.tokenCount + v]? with | some (si, _) => si.named && si.visible && showName si.name == name | none => false)
+      | none => false)).length
+    match shapeBad with
+    | some what => s!"FAIL var={what.replace " " ""} prod=shape"
+    | none =>
     match extraBad with
     | some name => s!"FAIL var={name}/extra-flag prod=0"
     | none =>
-    if Derive.closedB Gc I then s!"ok vars={nvars} hidden={hidden.length} prods={li.gprods.size} inlined={li.ginl.length} prods_after={G.prods.foldl (fun a ps => a + ps.length) 0} extras={li.gextra.length}"
+    if Derive.closedB Gc I then s!"ok vars={nvars} hidden={hidden.length} prods={li.gprods.size} inlined={li.ginl.length} prods_after={G.prods.foldl (fun a ps => a + ps.length) 0} extras={li.gextra.length} reds={li.reds.size} shapevars={shapeVars}"
     else match Derive.firstOpen Gc I with
       | some (v, i) =>
         let name := match varSyms[v]? with | some (_, _, vis, name) => s!"{name}/{vis}" | none => "?"
@@ -321,6 +350,9 @@ def step (s : St) (line : String) : IO St := do
   | ["sup", sym, subs] =>
     let l := if subs == "-" then [] else (subs.splitOn ",").map natOf
     return s.upd s.cur (fun li => { li with sups := li.sups.push (natOf sym, l) })
+  | "red" :: sym :: cc :: _ :: "f" :: rest =>
+    let fs := (rest.takeWhile (· != "a")).map (fun w => match colon w with | [a, b] => (a, b) | _ => (0, 0))
+    return s.upd s.cur (fun li => { li with reds := li.reds.push (natOf sym, natOf cc, fs) })
   | ["fld", _, name, r] => return s.upd s.cur (fun li => { li with flds := li.flds.push (bytesOfHex name, natOf r) })
   | ["endlang", id] =>
     IO.println (evalLang s.exact id (s.langs.getD id {}))
